@@ -516,6 +516,10 @@ func (rt *referenceTracker) updateRow(table, uuid string, row ovsdb.Row) (ModelU
 		if err != nil {
 			return ModelUpdates{}, err
 		}
+		// continue from the mutated model, if it changed
+		if mutated := updates.GetModel(table, uuid); mutated != nil {
+			model = mutated
+		}
 	}
 
 	if len(update) > 0 {
